@@ -129,6 +129,12 @@ def generate(rng, tier):
                     names2 = [x for x in ALLNAMES if r.chance(1, 4)] + [r.pick([b'k', b'p', b'z', b'q'])]
                     filt.append((path, names2, len(lines)))     # the later command on a position replaces the earlier
                     lines.append('filter 0 %s%s' % (hx(path), ''.join(' ' + hx(x) for x in names2)))
+        if filt and n % 3 == 0:
+            # a filter taken off again (NULL): the section prints under what it inherits, the root prints everything
+            for path, _, _ in list(filt):
+                if r.chance(1, 2):
+                    filt.append((path, None, len(lines)))
+                    lines.append('unfilter 0 %s' % hx(path))
         pfs = [p for p in (b'a', b'l', b's|x', b's|y', b'fn', b'm=0|x', b'q', b'n') if r.chance(1, 5)]
         for p in pfs:
             lines.append('printfunc 0 %s 0' % hx(p))
@@ -187,7 +193,9 @@ def oracle(scn, il):
         if li < len(body) and 'rc=ok' not in body[li]:
             continue
         pos, _ = locate(tree, path)
-        if pos is not None:
+        if pos is not None and names is None:
+            st['filters'].pop(pos, None)
+        elif pos is not None:
             st['filters'][pos] = set(names)
     for p in m['pfs']:
         # option position: section steps + option index
